@@ -921,3 +921,223 @@ Proof.
     exists (ids a), (ids b), (ids c). rewrite Eq. unfold ids.
     rewrite map_app. simpl. rewrite map_app. simpl. rewrite Hid. reflexivity.
 Qed.
+
+(* ------------------------------------------------------------------ *)
+(** * [acyclic] is "no cycle"
+
+    On a finite set with distinct ids a rank exists as soon as the spend
+    relation has no cycle: rank = length of the longest spend path below a
+    transaction, computed with fuel [length set] (enough, since a longer path
+    would repeat a member, i.e. contain a cycle). *)
+Definition no_cycle (set : list tx) : Prop :=
+  forall t, ~ Relation_Operators.clos_trans tx (spends set) t t.
+
+Definition parent_txs (set : list tx) (t : tx) : list tx :=
+  flat_map (fun h => match set_lookup set h with Some p => [p] | None => [] end)
+           (map fst (inputs t)).
+
+Lemma in_parent_txs set t p :
+  NoDup (ids set) ->
+  (In p (parent_txs set t) <-> In p set /\ In (txid p) (map fst (inputs t))).
+Proof.
+  intros Hnd. unfold parent_txs. rewrite in_flat_map. split.
+  - intros [h [Hh Hp]]. destruct (set_lookup set h) as [q|] eqn:L; [|destruct Hp].
+    destruct Hp as [<-|[]]. destruct (set_lookup_Some _ _ _ L) as [Hq <-]. auto.
+  - intros [Hp Hi]. exists (txid p). split; [exact Hi|].
+    rewrite (set_lookup_In _ _ Hnd Hp). left. reflexivity.
+Qed.
+
+Definition maxmap {A} (g : A -> nat) (l : list A) : nat :=
+  fold_right (fun p acc => Nat.max (g p) acc) O l.
+
+Lemma maxmap_ge {A} (g : A -> nat) l p : In p l -> (g p <= maxmap g l)%nat.
+Proof.
+  induction l as [|a l IH]; simpl; [intros []|]. intros [->|H]; [lia|].
+  specialize (IH H). lia.
+Qed.
+
+Lemma maxmap_attained {A} (g : A -> nat) l :
+  maxmap g l = O \/ exists p, In p l /\ maxmap g l = g p.
+Proof.
+  induction l as [|a l IH]; simpl; [left; reflexivity|].
+  destruct (Nat.max_spec (g a) (maxmap g l)) as [[_ E]|[_ E]]; rewrite E.
+  - destruct IH as [Z|[p [Hp Ep]]]; [left; exact Z|].
+    right. exists p. split; [right; exact Hp|exact Ep].
+  - right. exists a. split; [left|]; reflexivity.
+Qed.
+
+Lemma maxmap_le {A} (g h : A -> nat) l :
+  (forall p, In p l -> (g p <= h p)%nat) -> (maxmap g l <= maxmap h l)%nat.
+Proof.
+  induction l as [|a l IH]; simpl; intros H; [lia|].
+  assert (X := H a (or_introl eq_refl)).
+  assert (Y := IH (fun p Hp => H p (or_intror Hp))). lia.
+Qed.
+
+Lemma maxmap_differs {A} (g h : A -> nat) l :
+  maxmap g l <> maxmap h l -> exists p, In p l /\ g p <> h p.
+Proof.
+  induction l as [|a l IH]; simpl; intros Hne; [exfalso; apply Hne; reflexivity|].
+  destruct (Nat.eq_dec (g a) (h a)) as [Ea|Na].
+  - destruct IH as [p [Hp Np]]; [intros X; apply Hne; rewrite Ea, X; reflexivity|].
+    exists p. split; [right; exact Hp|exact Np].
+  - exists a. split; [left; reflexivity|exact Na].
+Qed.
+
+Fixpoint depth (set : list tx) (fuel : nat) (t : tx) : nat :=
+  match fuel with
+  | O => O
+  | S f => maxmap (fun p => S (depth set f p)) (parent_txs set t)
+  end.
+
+Lemma depth_le_fuel set : forall f t, (depth set f t <= f)%nat.
+Proof.
+  induction f as [|f IH]; intros t; simpl; [lia|].
+  destruct (maxmap_attained (fun p => S (depth set f p)) (parent_txs set t))
+    as [Z|[p [_ E]]]; [lia|]. rewrite E. specialize (IH p). lia.
+Qed.
+
+Lemma depth_mono set : forall f t, (depth set f t <= depth set (S f) t)%nat.
+Proof.
+  induction f as [|f IH]; intros t; [simpl; lia|].
+  change (depth set (S f) t) with (maxmap (fun p => S (depth set f p)) (parent_txs set t)).
+  change (depth set (S (S f)) t)
+    with (maxmap (fun p => S (depth set (S f) p)) (parent_txs set t)).
+  apply maxmap_le. intros p _. specialize (IH p). lia.
+Qed.
+
+(** The depth grows with the fuel only while the fuel is the limit. *)
+Lemma depth_grows set : forall f t,
+  depth set (S f) t <> depth set f t -> depth set (S f) t = S f.
+Proof.
+  induction f as [|f IH]; intros t Hne.
+  - simpl in *. destruct (maxmap_attained (fun _ : tx => 1%nat) (parent_txs set t))
+      as [Z|[p [_ E]]]; [contradiction|exact E].
+  - change (depth set (S f) t)
+      with (maxmap (fun p => S (depth set f p)) (parent_txs set t)) in Hne.
+    change (depth set (S (S f)) t)
+      with (maxmap (fun p => S (depth set (S f) p)) (parent_txs set t)) in *.
+    assert (Hex : exists p, In p (parent_txs set t) /\ depth set (S f) p <> depth set f p).
+    { destruct (maxmap_differs _ _ _ Hne) as [p [Hp Np]]. exists p. split; [exact Hp|lia]. }
+    destruct Hex as [p [Hp Np]]. specialize (IH p Np).
+    assert (G := maxmap_ge (fun p => S (depth set (S f) p)) _ p Hp). cbv beta in G.
+    assert (L := depth_le_fuel set (S (S f)) t).
+    change (depth set (S (S f)) t)
+      with (maxmap (fun p => S (depth set (S f) p)) (parent_txs set t)) in L.
+    lia.
+Qed.
+
+(** A spend path: each element spends from the next one. *)
+Fixpoint chain (set : list tx) (l : list tx) : Prop :=
+  match l with
+  | c :: r => match r with
+              | p :: _ => spends set c p /\ chain set r
+              | [] => True
+              end
+  | [] => True
+  end.
+
+Lemma chain_reach set : forall l a b,
+  chain set (a :: l) -> In b l -> Relation_Operators.clos_trans tx (spends set) a b.
+Proof.
+  induction l as [|p r IH]; intros a b Hc Hb; [destruct Hb|].
+  destruct Hc as [Hs Hc]. destruct Hb as [<-|Hb].
+  - apply Relation_Operators.t_step. exact Hs.
+  - eapply Relation_Operators.t_trans; [apply Relation_Operators.t_step; exact Hs|].
+    apply IH; assumption.
+Qed.
+
+Lemma chain_app_inv set : forall l1 l2, chain set (l1 ++ l2) -> chain set l2.
+Proof.
+  induction l1 as [|a l1 IH]; intros l2 H; [exact H|].
+  apply IH. simpl in H. destruct (l1 ++ l2); [exact I|]. destruct H as [_ H]. exact H.
+Qed.
+
+Lemma chain_in_set set : forall l a, In a set -> chain set (a :: l) -> Forall (fun x => In x set) (a :: l).
+Proof.
+  induction l as [|p r IH]; intros a Ha Hc; [constructor; [exact Ha|constructor]|].
+  destruct Hc as [Hs Hc]. constructor; [exact Ha|].
+  apply IH; [|exact Hc]. destruct Hs as [_ [Hp _]]. exact Hp.
+Qed.
+
+Lemma depth_chain set : NoDup (ids set) -> forall f t,
+  In t set -> exists l, length l = depth set f t /\ chain set (t :: l).
+Proof.
+  intros Hnd. induction f as [|f IH]; intros t Ht.
+  - exists []. split; [reflexivity|exact I].
+  - simpl depth.
+    destruct (maxmap_attained (fun p => S (depth set f p)) (parent_txs set t))
+      as [Z|[p [Hp E]]].
+    + exists []. split; [symmetry; exact Z|exact I].
+    + apply (in_parent_txs _ _ _ Hnd) in Hp. destruct Hp as [Hp Hi].
+      destruct (IH p Hp) as [l [Hl Hc]].
+      exists (p :: l). split; [simpl; rewrite Hl, E; reflexivity|].
+      split; [|exact Hc]. repeat split; assumption.
+Qed.
+
+Lemma dup_or_nodup : forall l : list N,
+  NoDup l \/ exists a l1 l2 l3, l = l1 ++ a :: l2 ++ a :: l3.
+Proof.
+  induction l as [|x l IH]; [left; constructor|].
+  destruct IH as [Hnd|[a [l1 [l2 [l3 E]]]]].
+  - destruct (in_dec N.eq_dec x l) as [Hin|Hn].
+    + right. apply in_split in Hin. destruct Hin as [l2 [l3 E]].
+      exists x, [], l2, l3. rewrite E. reflexivity.
+    + left. constructor; assumption.
+  - right. exists a, (x :: l1), l2, l3. rewrite E. reflexivity.
+Qed.
+
+Lemma chain_nodup set l :
+  NoDup (ids set) -> no_cycle set -> Forall (fun x => In x set) l -> chain set l ->
+  NoDup (ids l).
+Proof.
+  intros Hnd Hnc Hin Hc.
+  destruct (dup_or_nodup (ids l)) as [H|[x [m1 [m2 [m3 E]]]]]; [exact H|exfalso].
+  unfold ids in E. apply map_eq_app in E. destruct E as [l1 [r1 [-> [_ E]]]].
+  apply map_eq_cons in E. destruct E as [a [r2 [-> [Ha E]]]].
+  apply map_eq_app in E. destruct E as [l2 [r3 [-> [_ E]]]].
+  apply map_eq_cons in E. destruct E as [a' [l3 [-> [Ha' _]]]].
+  rewrite Forall_forall in Hin.
+  assert (Eq : a = a').
+  { apply (NoDup_map_inj txid set a a' Hnd); [| |congruence].
+    - apply Hin. apply in_or_app. right. left. reflexivity.
+    - apply Hin. apply in_or_app. right. right. apply in_or_app. right. left. reflexivity. }
+  subst a'. apply chain_app_inv in Hc.
+  apply (Hnc a). apply (chain_reach set _ a a Hc).
+  apply in_or_app. right. left. reflexivity.
+Qed.
+
+Theorem acyclic_of_no_cycle set : NoDup (ids set) -> no_cycle set -> acyclic set.
+Proof.
+  intros Hnd Hnc. exists (depth set (length set)).
+  intros c p [Hc [Hp Hi]].
+  assert (Bound : forall f t, In t set -> (depth set f t < length set)%nat).
+  { intros f t Ht. destruct (depth_chain set Hnd f t Ht) as [l [Hl Hch]].
+    assert (Hall := chain_in_set set l t Ht Hch).
+    assert (ND := chain_nodup set (t :: l) Hnd Hnc Hall Hch).
+    assert (Len : (length (ids (t :: l)) <= length (ids set))%nat).
+    { apply NoDup_incl_length; [exact ND|]. intros x Hx. apply in_map_iff in Hx.
+      destruct Hx as [y [<- Hy]]. apply in_map. rewrite Forall_forall in Hall. apply Hall. exact Hy. }
+    unfold ids in Len. rewrite !map_length in Len. simpl in Len. lia. }
+  assert (Step : (S (depth set (length set) p) <= depth set (S (length set)) c)%nat).
+  { change (depth set (S (length set)) c)
+      with (maxmap (fun q => S (depth set (length set) q)) (parent_txs set c)).
+    apply (maxmap_ge (fun q => S (depth set (length set) q))).
+    apply (in_parent_txs _ _ _ Hnd). split; assumption. }
+  destruct (Nat.eq_dec (depth set (S (length set)) c) (depth set (length set) c)) as [E|NE].
+  - lia.
+  - apply depth_grows in NE. specialize (Bound (S (length set)) c Hc). lia.
+Qed.
+
+(** The main theorem with the hypothesis "no cycle". *)
+Corollary dependency_sort_correct_no_cycle : forall set pi1 pi2,
+  NoDup (ids set) -> no_cycle set ->
+  Permutation pi1 set -> Permutation pi2 (ids set) ->
+  exists out,
+    dependency_sort pi1 pi2 set = Some out
+    /\ Permutation out set
+    /\ forall p c, spends set c p -> before p c out.
+Proof.
+  intros set pi1 pi2 Hnd Hnc. apply dependency_sort_correct; [exact Hnd|].
+  apply acyclic_of_no_cycle; assumption.
+Qed.
